@@ -9,6 +9,7 @@ import (
 	"encoding/hex"
 	"fmt"
 	"math/big"
+	"math"
 	"math/rand"
 	"sort"
 	"strings"
@@ -89,9 +90,7 @@ func profileFor(prop string, tier string) *Profile {
 		p.W = map[string]int{"str": 60, "gov": 4, "bank": 2, "multi": 4, "attack": 4}
 		p.Dt = dtLong
 		p.FaultPct = 4
-		if prop == "C12" {
-			p.Export, p.ExportPct = true, 3
-		}
+		p.Export, p.ExportPct = true, 3
 	case "C13":
 		p.W["attack"] = 25
 		p.W["gov"] = 8
@@ -261,6 +260,9 @@ func NewRun(prop string, seed int64, tier string) (*Trace, *Gen) {
 	}
 	k.Ent.MinAccepts = uint64(1 + r.Intn(ns))
 	k.Ent.Limit = pick(r, []uint64{5, 30, 60, 600, 86400, 172800})
+	if g.pct(6) {
+		k.Ent.Limit = hugeDecisionLimit(r)
+	}
 	k.Whitelist = nil
 	for i := 3; i < k.NActors; i++ {
 		if g.pct(50) {
@@ -1359,6 +1361,9 @@ func (g *Gen) paramMsg(w *World) MsgSpec {
 			g.ghostSigners = append(g.ghostSigners, a)
 		}
 		p := &ParamSpec{EntSigners: "@" + strings.Join(idx, ","), Denom: e.Denom, MinAccepts: uint64(1 + g.R.Intn(ns)), Limit: pick(g.R, []uint64{5, 30, 60, 600, 86400})}
+		if g.pct(8) {
+			p.Limit = hugeDecisionLimit(g.R)
+		}
 		if g.Flags["dupsigners"] && g.pct(40) {
 			p.EntSigners = "@1,1," + strings.Join(idx, ",")
 		}
@@ -1860,4 +1865,10 @@ func (g *Gen) multiSignerTx(w *World) TxSpec {
 	ts := TxSpec{Signer: msgs[0].A, Gas: ampleGas * 2, Msgs: msgs, Multi: true}
 	g.setFee(w, &ts)
 	return ts
+}
+
+// hugeDecisionLimit: legal "never expires" settings of the decision time limit (validation only asks for > 0);
+// raise time + limit does not fit 64 bits for any of them, so a deadline computed as a sum wraps into the past.
+func hugeDecisionLimit(r *rand.Rand) uint64 {
+	return pick(r, []uint64{math.MaxUint64, math.MaxUint64 - 1, math.MaxUint64 - uint64(GenesisTS) + uint64(r.Intn(100000)), 1<<63 + uint64(r.Intn(1000)), math.MaxInt64})
 }
